@@ -478,6 +478,9 @@ class ShortTimeFourierTransformFrameComputer(LinearFilterBankFrameComputer):
             frame_length = self._frame_length
         frame_shift = self._frame_shift
         num_frames = max(0, (total_len - frame_length) // frame_shift + 1)
+        if noncausal_first and total_len < self._frame_length // 2 + 1:
+            # too short for compute_full to emit anything (kaldi_shift, unit shift)
+            num_frames = 0
         coeffs = np.empty((num_frames, self.num_coeffs), dtype=self._chunk_dtype)
         for frame_idx in range(num_frames):
             frame_start_idx = frame_idx * frame_shift
@@ -518,7 +521,7 @@ class ShortTimeFourierTransformFrameComputer(LinearFilterBankFrameComputer):
             self._compute_frame(frame, coeffs[frame_idx])
             self._first_frame = False
         rem_len = total_len - num_frames * frame_shift
-        assert rem_len < frame_length
+        assert rem_len < max(frame_length, self._frame_length // 2 + 1)
         if rem_len > 0:
             throw_away = total_len - rem_len
             if throw_away < buf_len:
@@ -553,6 +556,9 @@ class ShortTimeFourierTransformFrameComputer(LinearFilterBankFrameComputer):
         if not self._first_frame:
             num_frames -= pad_left
             pad_left = 0
+        elif buf_len < frame_length // 2 + 1:
+            # the whole signal is too short for a frame (see compute_full)
+            num_frames = 0
         num_frames //= frame_shift
         if num_frames >= 1:
             pad_right = (num_frames - 1) * frame_shift + frame_length - buf_len
